@@ -13,6 +13,7 @@ import (
 	"fmt"
 	"os"
 	"runtime"
+	"time"
 	"unsafe"
 )
 
@@ -243,6 +244,9 @@ func LastSite(c int) int32 { return s.lastSite[c] }
 // discrete-event jumps to the next timer when every client is blocked.
 var clockNs int64
 
+// RealTimersHook reports whether the code under test arms real (unsimulated) timers.
+var RealTimersHook func() bool
+
 // TimerHook fires due timers and returns the earliest pending deadline (0: none).
 var TimerHook func() int64
 
@@ -465,6 +469,11 @@ func BlockedYield() {
 	s.blockedStreak++
 	if s.blockedStreak > uint64(2*s.nAlive+2) {
 		s.blockedStreak = 0
+		if RealTimersHook != nil && RealTimersHook() {
+			// the library waits for a REAL timer: not a deadlock, real time has to pass
+			time.Sleep(200 * time.Microsecond)
+			goto pass
+		}
 		if TimerHook != nil {
 			if nx := TimerHook(); nx > clockNs {
 				// nobody can run, but a timer is pending: jump the clock to it
